@@ -1,4 +1,12 @@
-"""C18 — socket and pipe transports deliver intact and to the right request.  DESIGN §5 C18."""
+"""C18 — socket and pipe transports deliver intact and to the right request.  DESIGN §5 C18.
+
+Four parts per run (after the Lean build + axiom audit of Props/C18.lean):
+  frame  (E3)  real write_record/read_record + asyncio.StreamReader  vs  Frame model   (drv frame, byte-exact)
+  pipeip (E3)  real pipe.Server/Client in one process (threads)       vs  Pipe model    (drv pipe, trace replay)
+  sock   (E4)  real SocketServer + SocketClient over a unix socket    vs  Mux model     (drv mux, trace replay)
+  pipe   (E4)  real pipe.Server / pipe.Client in two processes        monitors only
+Every part carries monitors that evaluate C18 directly on the run of the real code.
+"""
 import importlib
 import json
 import sys
@@ -6,22 +14,36 @@ import sys
 import core
 
 PROPS = ['Props/C18.lean']
+SCEN_OF_KIND = {'frame': 'scen_frame', 'sock': 'scen_sock', 'pipe': 'scen_sock', 'pipeip': 'scen_pipe'}
+MODEL_OF_KIND = {'frame': 'frame', 'sock': 'mux', 'pipeip': 'pipe'}
 
 
 def keyfn(case, res, m):
     return f"{m['rule']}:{case['kind']}"
 
 
+def _escalate(chk, scen_name, scen, gen, n, breaks_before, what):
+    """correspondence broke but no monitor fired: spend more budget looking for a failing input"""
+    if len(chk.corr_breaks) > breaks_before and not chk.violations:
+        more_cases = [gen() for _ in range(n)]
+        more = chk.run_cases(scen_name, more_cases, sched=False, per_case_timeout=200)
+        chk.account(scen, more, 'escalation')
+        chk.collect_monitors(more, {'C18'}, keyfn)
+        chk.notes.append(f'{what}: correspondence broke on {len(chk.corr_breaks) - breaks_before} cases; '
+                         f'escalated search over {n} more cases, monitor hits: {len(chk.violations)}')
+
+
 def _frame_part(chk, n):
-    sys.path.insert(0, str(core.HARNESS))
     scen = importlib.import_module('scen_frame')
     cases = [scen.gen_case(chk.rng, chk.tier) for _ in range(n)]
     results = chk.run_cases('scen_frame', cases, sched=False)
     chk.account(scen, results, 'E3-differential')
     chk.collect_monitors(results, {'C18'}, keyfn)
+    b0 = len(chk.corr_breaks)
     nval, ntot = chk.validate('frame', scen, results)
     chk.add_obligation('correspondence', 'frame: real write_record/read_record vs Frame.encodeStream/decodeStream (byte-exact)',
                        nval == ntot, cases=ntot, agreed=nval)
+    _escalate(chk, 'scen_frame', scen, lambda: scen.gen_case(chk.rng, chk.tier), 2 * n, b0, 'frame')
     dist = chk.cov['distribution'].setdefault('frame', {})
     for case, res in results:
         dist[case['mode']] = dist.get(case['mode'], 0) + 1
@@ -36,6 +58,30 @@ def _frame_part(chk, n):
     return results
 
 
+def _pipe_part(chk, n):
+    scen = importlib.import_module('scen_pipe')
+    cases = [scen.gen_case(chk.rng, chk.tier) for _ in range(n)]
+    results = chk.run_cases('scen_pipe', cases, sched=False, per_case_timeout=60)
+    chk.account(scen, results, 'E3-differential')
+    chk.collect_monitors(results, {'C18'}, keyfn)
+    b0 = len(chk.corr_breaks)
+    nval, ntot = chk.validate('pipe', scen, results)
+    chk.add_obligation('correspondence', 'pipe: send/recv traces of the real pipe.Server/Client replayed through Pipe.step, '
+                       'and Connection framing vs Pipe.frame/readFrame (drv pipe)', nval == ntot, cases=ntot, agreed=nval)
+    _escalate(chk, 'scen_pipe', scen, lambda: scen.gen_case(chk.rng, chk.tier), 2 * n, b0, 'pipe')
+    dist = chk.cov['distribution'].setdefault('pipe_inproc', {})
+    for case, res in results:
+        dist['cases'] = dist.get('cases', 0) + 1
+        dist['messages'] = dist.get('messages', 0) + res['nmsg']
+        dist['frames_compared'] = dist.get('frames_compared', 0) + len(res['frames'])
+        dist['max_message_bytes'] = max([dist.get('max_message_bytes', 0)] + [e[2] for e in res['events']])
+    for case, res in results:
+        if 2 <= res['nmsg'] <= 4 and max([e[2] for e in res['events']] + [0]) < 200:
+            chk.sample(dict(case=case, trace=res['trace']))
+            break
+    return results
+
+
 def _sock_part(chk, n_sock, n_pipe):
     scen = importlib.import_module('scen_sock')
     rng = chk.rng
@@ -45,16 +91,15 @@ def _sock_part(chk, n_sock, n_pipe):
              scen.gen_sock(rng, chk.tier, mode='proc', boundary='bigfast')]
     cases += [scen.gen_sock(rng, chk.tier, boundary=('bigfast' if rng.random() < 0.1 else None)) for _ in range(n_sock)]
     cases += [scen.gen_pipe(rng, chk.tier) for _ in range(n_pipe)]
-    try:
-        results = chk.run_cases('scen_sock', cases, sched=False, per_case_timeout=scen.CHILD_TIMEOUT + 30)
-    except core.InfraError:
-        raise
+    results = chk.run_cases('scen_sock', cases, sched=False, per_case_timeout=scen.CHILD_TIMEOUT + 30)
     chk.account(scen, results, 'E4-processes')
     chk.collect_monitors(results, {'C18'}, keyfn)
     traced = [(c, r) for c, r in results if c['kind'] == 'sock' and c['mode'] == 'thread']
+    b0 = len(chk.corr_breaks)
     nval, ntot = chk.validate('mux', scen, traced)
     chk.add_obligation('correspondence', 'mux: event traces of the real SocketServer/SocketClient replayed through Mux.step (drv mux)',
                        nval == ntot, cases=ntot, agreed=nval)
+    _escalate(chk, 'scen_sock', scen, lambda: scen.gen_sock(rng, chk.tier), 2 * n_sock, b0, 'mux')
     dist = chk.cov['distribution'].setdefault('sock', {})
     walls = sorted(r.get('wall') or 0 for _c, r in results)
     for case, res in results:
@@ -63,8 +108,11 @@ def _sock_part(chk, n_sock, n_pipe):
         if case['kind'] == 'sock':
             dist['requests'] = dist.get('requests', 0) + len(case['reqs'])
             dist['handler_completions_overtaking'] = dist.get('handler_completions_overtaking', 0) + (res.get('reordered') or 0)
+            dist['sends_with_other_events_before_registration'] = \
+                dist.get('sends_with_other_events_before_registration', 0) + (res.get('drain_windows') or 0)
             dist['max_body_bytes'] = max(dist.get('max_body_bytes', 0), max(r['pl'][1] for r in case['reqs']))
             dist[f'nconn={case["nconn"]}'] = dist.get(f'nconn={case["nconn"]}', 0) + 1
+            dist[f'requesters={case["nthreads"]}'] = dist.get(f'requesters={case["nthreads"]}', 0) + 1
         else:
             dist['pipe_objects'] = dist.get('pipe_objects', 0) + res.get('nobjects', 0)
     dist['median_case_wall_s'] = walls[len(walls) // 2] if walls else 0
@@ -76,61 +124,96 @@ def _sock_part(chk, n_sock, n_pipe):
     return results
 
 
-def _pipe_part(chk, n):
-    scen = importlib.import_module('scen_pipe')
-    cases = [scen.gen_case(chk.rng, chk.tier) for _ in range(n)]
-    results = chk.run_cases('scen_pipe', cases, sched=False)
-    chk.account(scen, results, 'E3-differential')
-    chk.collect_monitors(results, {'C18'}, keyfn)
-    nval, ntot = chk.validate('pipe', scen, results)
-    chk.add_obligation('correspondence', 'pipe: send/recv traces of the real pipe.Server/Client replayed through Pipe.step, '
-                       'and Connection framing vs Pipe.frame/readFrame (drv pipe)', nval == ntot, cases=ntot, agreed=nval)
-    dist = chk.cov['distribution'].setdefault('pipe_inproc', {})
-    for case, res in results:
-        dist['cases'] = dist.get('cases', 0) + 1
-        dist['messages'] = dist.get('messages', 0) + res['nmsg']
-        dist['frames_compared'] = dist.get('frames_compared', 0) + len(res['frames'])
-        dist['max_message_bytes'] = max([dist.get('max_message_bytes', 0)] + [e[2] for e in res['events']])
-    return results
-
-
 def run(chk):
+    sys.path.insert(0, str(core.HARNESS))
+    if str(core.REPO / 'src') not in sys.path:
+        sys.path.insert(0, str(core.REPO / 'src'))     # the parent only uses pure helpers of the scenario modules
     chk.audit(PROPS)
     quick = chk.tier == 'quick'
-    _frame_part(chk, 500 if quick else 12000)
-    _pipe_part(chk, 60 if quick else 1500)
-    _sock_part(chk, 36 if quick else 500, 10 if quick else 120)
+    _frame_part(chk, 1200 if quick else 25000)
+    _pipe_part(chk, 120 if quick else 2500)
+    _sock_part(chk, 72 if quick else 900, 16 if quick else 200)
     chk.cov['rule'] = (
-        'frame (E3): cases = random (records: id class x encoder x payload class [empty, header look-alike, newline-heavy, '
-        'random bytes, nested objects, unicode text] x size incl. 64 KiB boundaries; reader limit; mode clean/cut/malformed '
-        'tail; 3-6 chunkings per stream incl. byte-wise and cuts at record/header boundaries) run through the real '
-        'write_record/read_record and an asyncio.StreamReader, compared byte-exactly with the Lean model; '
-        'non-trivial = at least 2 chunkings and (at least 2 records or a cut/malformed stream); distinct = distinct '
-        '(case, sha1 of the fed stream, ending).')
+        'frame (E3): random cases (records: id class x encoder x payload class [empty, header look-alike, newline-heavy, '
+        'random bytes, nested objects, unicode text] x size incl. 64 KiB boundaries; reader limit 24..65536; clean / cut '
+        'anywhere / malformed tail; 3-6 chunkings per stream incl. byte-wise and cuts at record/header boundaries) through the '
+        'real write_record/read_record + asyncio.StreamReader, compared byte-exactly with the Lean model. '
+        'pipeip (E3): random message lists in both directions through the real pipe.Server/Client (threads), trace replayed '
+        'through the Pipe model; Connection framing compared byte-exactly. '
+        'sock (E4): real unix-socket SocketServer+SocketClient, 1-4 connections, 1-16 concurrent requesters + stream(), payload '
+        'classes up to 4 MiB (thorough 8 MiB), generated handler latencies (zero/random/reversed/bimodal) and failures; '
+        'mode thread: full event trace replayed through the Mux model; mode proc: server in its own process, monitors only. '
+        'pipe (E4): pipe.Server / pipe.Client in two processes, objects both ways concurrently. '
+        'non-trivial = frame: >=2 chunkings and (>=2 records or cut/malformed); pipeip/pipe: >=2 messages; sock: >=2 requests '
+        'and >=2 responses read; distinct = distinct (case, observed event shape / stream digest).')
     chk.trusted += TRUSTED
     chk.assumptions += ASSUMPTIONS
 
 
 TRUSTED = [
     'Lean 4.33.0 kernel; axioms per theorem as listed in coverage.obligation_list (subset of propext, Classical.choice, Quot.sound)',
-    'hand-written model lean/MpsVerif/Model/Frame.lean of write_record/read_record, tied to /repo by byte-exact differential runs (drv frame) on every run',
-    'modelled not verified: asyncio.StreamReader.readuntil/readexactly return the same bytes for every chunking of the input '
-    '(sampled by the tie: every stream is read under several chunkings); pickle/utf8 encode-decode round trip of the payload object',
+    'hand-written models lean/MpsVerif/Model/{Frame,Mux,Pipe}.lean, tied to /repo on every run: Frame byte-exactly (drv frame), '
+    'Mux and Pipe by replaying the recorded event traces of the real code through the model step functions (drv mux, drv pipe)',
+    'harness-side observation: shadows of write_record/read_record/encode/decode in the module namespace of mpservice.socket, '
+    'a logging dict for SocketClient._active_requests, a wrapper of _pending_requests.put; list.append gives the total order of events',
+    'modelled not verified: asyncio.StreamReader.readuntil/readexactly return the same bytes for every chunking (sampled: every '
+    'stream is read under several chunkings); pickle/utf8 round trip of payload objects; FIFO order of SingleLane, asyncio.Queue, '
+    'stream sockets and FIFOs; dict insert/pop; Future.set_result; multiprocessing.Connection framing (compared byte-exactly with '
+    'Pipe.frame on sampled messages); CPython id(): distinct among live objects',
+    'E4: the OS schedule is sampled, not controlled; the quantifier over interleavings is carried by the Mux/Pipe theorems alone',
 ]
 ASSUMPTIONS = [
     'request ids are non-empty printable ASCII without white space (the client uses decimal id(fut)) and the header line fits the StreamReader limit',
-    'the correspondence was checked on the cases generated in this run only; the theorems quantify over all byte strings / schedules of the model',
+    'the client registers active[req_id] before its receiver task processes the response to that record (send is atomic in the Mux '
+    'model): in the code the registration follows `await writer.drain()`; on the selector event loop the continuation runs before any '
+    'later I/O callback. Monitored on every real run (rule unmatched-response); not exhibited (suspected window F17)',
+    'handler outcome is a function of the payload it receives; handler exceptions are Exception subclasses that pickle; responses pickle',
+    'named pipe: both endpoints stay open while messages are in transit (a FIFO drops buffered data when its last descriptor is closed); '
+    'message length < 2^64',
+    'single client per model instance (ids need to be distinct per client process only; the server keeps no cross-connection state per request)',
+    'the correspondence was checked on the cases generated in this run only; the theorems quantify over all byte strings / schedules of the models',
 ]
 
 
 def replay(chk, data):
-    case = data['case']
-    scen_name = {'frame': 'scen_frame', 'sock': 'scen_sock', 'pipe': 'scen_sock', 'pipeip': 'scen_pipe'}.get(case.get('kind'), 'scen_frame')
-    res = chk.run_cases(scen_name, [case], sched=False)
-    _case, r = res[0]
-    hits = [m for m in r['monitors'] if m['prop'] == chk.prop]
-    print(json.dumps(dict(monitors=r['monitors'], end=r.get('end')), default=str)[:2000])
-    if hits:
-        print(f'VIOLATION property={chk.prop} replay=(replayed)')
-        return 1
-    return 0
+    sys.path.insert(0, str(core.HARNESS))
+    if 'case' in data:
+        cases = [data['case']]
+    else:       # a proof-or-correspondence-broken file: re-run the disagreeing cases
+        cases = [b['case'] for b in data.get('correspondence_breaks', []) if b.get('case')]
+        if data.get('lean_problems'):
+            ok = chk.audit(PROPS)
+            print(json.dumps(dict(lean_problems=chk.problems))[:1500])
+            if not ok:
+                print(f'VIOLATION property={chk.prop} replay=(replayed) no-failing-input-found')
+                return 1
+    rc = 0
+    for case in cases:
+        scen_name = SCEN_OF_KIND.get(case.get('kind'), 'scen_frame')
+        res = chk.run_cases(scen_name, [case], sched=False, per_case_timeout=200)
+        _case, r = res[0]
+        hits = [m for m in r['monitors'] if m['prop'] == chk.prop]
+        verdict = None
+        model = MODEL_OF_KIND.get(case.get('kind'))
+        if model and not (case.get('kind') == 'sock' and case.get('mode') != 'thread'):
+            lines = _model_lines(scen_name, case, r)
+            out = core.run_driver(model, lines)
+            verdict = out[0] if out else 'no answer from the driver'
+        print(json.dumps(dict(monitors=r['monitors'], model_verdict=verdict, end=r.get('end'), errors=r.get('errors')),
+                         default=str)[:2000])
+        if hits:
+            print(f'VIOLATION property={chk.prop} replay=(replayed)')
+            rc = 1
+        elif verdict is not None and not verdict.startswith('ok'):
+            print(f'VIOLATION property={chk.prop} replay=(replayed) no-failing-input-found')
+            rc = 1
+    return rc
+
+
+def _model_lines(scen_name, case, r):
+    """model_lines needs only pure helpers of the scenario module; scen_frame/scen_pipe import mpservice at
+    module level, which is fine in the parent too (nothing is executed)."""
+    if str(core.REPO / 'src') not in sys.path:
+        sys.path.insert(0, str(core.REPO / 'src'))
+    scen = importlib.import_module(scen_name)
+    return scen.model_lines(0, case, r)
